@@ -7,6 +7,12 @@ from ..models.expect_ref import EOF_M, TIMEOUT_M, naive_search, marker_index
 
 
 def short(x, n=60):
+    try:
+        if len(x) > 4 * n:
+            x = x[:n]
+            return repr(x)[:n] + '...'
+    except TypeError:
+        pass
     r = repr(x)
     return r if len(r) <= n else r[:n] + '...'
 
